@@ -29,3 +29,42 @@ CORPUS = [
     M("n-is-not", C, "            if response_class != PropertiesResponse:", "            if response_class is not PropertiesResponse:", "S"),
     M("n-hoist-body", C, "                Response.validate(frame_mv[10:-1])", "                body = frame_mv[10:-1]\n                Response.validate(body)", "S"),
 ]
+# round 4: `online` kept as a flag next to the list (flag_tracks_list)
+_COMP = """        responses = [
+            resp
+            for cmd in commands
+            for resp in await self._send_command_get_responses(cmd)
+        ]
+
+        # Device is online if any response received
+        self._online = len(responses) > 0
+"""
+CORPUS += [
+    M("online-flag-per-command", D, _COMP, """        online = False
+        responses = []
+        for cmd in commands:
+            online = True
+            for resp in await self._send_command_get_responses(cmd):
+                responses.append(resp)
+
+        self._online = online
+"""),
+    M("online-flag-never-lowered", D, _COMP, """        online = self._online
+        responses = []
+        for cmd in commands:
+            for resp in await self._send_command_get_responses(cmd):
+                responses.append(resp)
+                online = True
+
+        self._online = online
+"""),
+    M("n-online-flag-per-response", D, _COMP, """        online = False
+        responses = []
+        for cmd in commands:
+            for resp in await self._send_command_get_responses(cmd):
+                responses.append(resp)
+                online = True
+
+        self._online = online
+""", "S"),
+]
